@@ -588,6 +588,14 @@ def gen_cases(tier, rng):
               b"m=video 0 RTP/AVP 96\r\na=rtpmap:96 H264/90000\r\na=fmtp:96 a\r\n=1\r\nm=x\r\n", b"a=fmtp:96 a\r\nb\r\nc", b"a=fmtp:96 a\r\n=1\r\n\r\n",
               b"a=fmtp:1 \r\na=b", b"a=fmtp:1\r\n x=1\r\n"]:
         yield parse_case(s, "sdp-parse-boundary")
+    # encoding names in every case on dynamic payload types (no static-type fallback)
+    hdr = b"v=0\r\no=- 0 0 IN IP4 127.0.0.1\r\ns=x\r\nt=0 0\r\n"
+    for name, rate in ((b"PCMA", b"8000"), (b"PCMU", b"8000"), (b"opus", b"48000/2"), (b"MPEG4-GENERIC", b"44100/2")):
+        for nm in (name, name.lower(), name.upper(), name.capitalize(), name.swapcase(), name[:-1] + name[-1:].swapcase()):
+            fm = b"a=fmtp:105 mode=AAC-hbr;sizelength=13;indexlength=3;indexdeltalength=3;config=1210\r\n" if name.startswith(b"MPEG") else b""
+            yield parse_case(hdr + b"m=audio 0 RTP/AVP 105\r\na=rtpmap:105 " + nm + b"/" + rate + b"\r\n" + fm + b"a=control:t\r\n", "sdp-parse-names")
+    for nm in (b"H264", b"h264", b"H265", b"h265", b"H266"):
+        yield parse_case(hdr + b"m=video 0 RTP/AVP 107\r\na=rtpmap:107 " + nm + b"/90000\r\na=control:t\r\n", "sdp-parse-names")
     picks = seeds if not q else seeds[:3] + seeds[-5:-3]
     for s in picks:
         for k in range(len(s) + 1):
